@@ -159,8 +159,9 @@ def sha(path):
         return hashlib.sha256(f.read()).hexdigest()
 
 
-def snapshot(dirpath):
-    """({name: token array} for the .npy files, {name: sha256} for the other regular files, {name: sha256} for all)."""
+def snapshot(dirpath, load=True):
+    """({name: token array} for the .npy files, {name: sha256} for the other regular files, {name: sha256} for all).
+    load=False: hashes only (the arrays are not parsed: an interrupted conversion may leave anything behind)."""
     import numpy as np
     npy, other, hashes = {}, {}, {}
     for name in sorted(os.listdir(dirpath)):
@@ -172,7 +173,7 @@ def snapshot(dirpath):
         h = sha(p)
         hashes[name] = h
         if name.endswith('.npy'):
-            npy[name] = D.tok_array(np.load(p))
+            npy[name] = D.tok_array(np.load(p)) if load else None
         else:
             other[name] = h
     return npy, other, hashes
